@@ -39,6 +39,12 @@ LITS = {
 }
 
 
+MULTI_TYPES = ["smallint", "int", "bigint", "double", "decimal(10,2)", "varchar", "boolean"]
+# (no boolean literal: a VALUES list of integers and booleans is unified to INT, so `true` reaches a VARCHAR column as '1' and
+#  alone as 'true' — both are faithful renderings, the property does not choose between them)
+MULTI_LITS = ["1", "2.5", "0.25", "3000000000", "null", "'12'", "-7"]
+
+
 def insert_cases():
     for ty, kind in COLTYPES.items():
         for constraint in ("", " not null", " primary key", "table-level primary key"):
@@ -142,6 +148,7 @@ def run(tier, seed):
     chk = core.Check("C16", tier, "exploration",
                      "(a) every successfully executed corpus statement (databases x {memory, disk}): kinds of every returned chunk == statically derived output kinds, single width; "
                      "(b) INSERT enumeration: 8 column types x {nullable, NOT NULL, PRIMARY KEY} x {17 literals of all types (integers in and out of range, fractions, strings, booleans, dates), NULL, omitted column, INSERT..SELECT of NULL, of an out-of-range BIGINT and of a fractional DOUBLE} x {memory, disk (+reopen)}; "
+                     "(c) multi-row VALUES: 7 column types x all triples over 7 literals (integer, fractions, out-of-range integer, NULL, string, boolean) in one INSERT vs three single-row INSERTs; "
                      "a case = (statement, db, engine) resp. (type, constraint, source, engine); non-trivial = the statement executed / the insert was attempted", seed)
     # ---- (a)
     js = planutil.jobs(tier)
@@ -174,6 +181,45 @@ def run(tier, seed):
         rs = runner.run_many("sql", scripts, timeout=120)
         for c, r in zip(ics, rs):
             judge_insert(chk, c, engine, r)
+    # ---- (c) multi-row VALUES: the rows of one VALUES list are converted to a common type first; every row must end up as
+    # it does when it is inserted alone (differential oracle: three single-row INSERTs), or the statement must fail
+    mcs = [{"type": ty, "rows": list(t)} for ty in MULTI_TYPES for t in __import__("itertools").product(MULTI_LITS, repeat=3)]
+    engines = ("mem", "disk") if tier == "thorough" else ("mem",)
+    for engine in engines:
+        scripts = []
+        for c in mcs:
+            ty, (l1, l2, l3) = c["type"], c["rows"]
+            scripts.append({"id": 0, "engine": engine, "opts": {"block": 64, "rowset": 1 << 20}, "steps": [
+                {"sql": f"create table m(id int, x {ty})"}, {"sql": f"create table s(id int, x {ty})"},
+                {"sql": f"insert into m values (1, {l1}), (2, {l2}), (3, {l3})"},
+                {"sql": f"insert into s values (1, {l1})"}, {"sql": f"insert into s values (2, {l2})"}, {"sql": f"insert into s values (3, {l3})"},
+                {"sql": "select id, x from m order by id"}, {"sql": "select id, x from s order by id"}]})
+        for c, r in zip(mcs, runner.run_many("sql", scripts, timeout=120)):
+            case = dict(c, engine=engine, part="c")
+            cid = core.case_id(case)
+            tag = c["type"].split("(")[0]
+            if r.get("abort"):
+                chk.fail(cid, "abort", case, r)
+                continue
+            rs = r["results"]
+            if any(U.status(x) != "rows" for x in rs[:2]) or not (U.is_rows(rs[6]) and U.is_rows(rs[7])):
+                chk.machinery(f"multi-row setup failed: {json.dumps(rs)[:300]}")
+                continue
+            multi, singles = rs[2], rs[3:6]
+            if U.status(multi) != "rows":
+                if "panicked" in json.dumps(multi) or U.status(multi) in ("panic", "ok_with_task_panic"):
+                    chk.fail(cid, f"insert-panics@multi-row:{tag}", case, multi, outcome="insert-panics")
+                elif rs[6]["rows"]:
+                    chk.fail(cid, f"failed-insert-stored-a-row@multi-row:{tag}", case, rs[6])
+                else:
+                    chk.ok(cid, nontrivial=True, outcome="multi-row-rejected", sample={"case": case})
+                continue
+            if any(U.status(x) != "rows" for x in singles):
+                chk.fail(cid, f"lossy-or-invalid-conversion-accepted@multi-row:{tag}", case, {"multi_row": rs[6]["rows"], "single_rows": [x if U.status(x) != "rows" else "ok" for x in singles]}, outcome="lossy-accepted")
+            elif rs[6]["rows"] != rs[7]["rows"] or rs[6]["cols"] != rs[7]["cols"]:
+                chk.fail(cid, f"stored-value-differs@multi-row:{tag}", case, {"multi_row": rs[6]["rows"], "single_rows": rs[7]["rows"]}, outcome="value-differs")
+            else:
+                chk.ok(cid, nontrivial=True, outcome="multi-row-stored", sample={"case": case, "stored": rs[6]["rows"]})
     chk.assumptions += ["expected stored values are given only where the conversion is unambiguous; a rejected INSERT is always acceptable"]
     return chk
 
